@@ -790,17 +790,23 @@ def b_not(x):
 
 
 def b_deps(x, acc=None):
+    """input bits a bit formula mentions (shared sub-formulas visited once)"""
     acc = acc if acc is not None else set()
-    if isinstance(x, tuple):
-        if x[0] == 'b':
-            acc.add((x[1], x[2]))
-        elif x[0] in ('or', 'and'):
-            for y in x[1]:
-                b_deps(y, acc)
-        elif x[0] == 'not':
-            b_deps(x[1], acc)
-        elif x[0] == 'top':
-            acc |= set(x[1])
+    stack = [x]
+    seen = set()
+    while stack:
+        y = stack.pop()
+        if not isinstance(y, tuple) or id(y) in seen:
+            continue
+        seen.add(id(y))
+        if y[0] == 'b':
+            acc.add((y[1], y[2]))
+        elif y[0] in ('or', 'and'):
+            stack.extend(y[1])
+        elif y[0] == 'not':
+            stack.append(y[1])
+        elif y[0] == 'top':
+            acc |= set(y[1])
     return acc
 
 
